@@ -1890,6 +1890,55 @@ func c14Tasks(tier string) []mc.Task {
 			return true
 		})
 	}
+	// many rows (counters narrower than int wrap at 256 / 65536): one- and two-column alignments of 255..258 and
+	// 513 rows in which one residue occurs 256k+1 times, another once
+	ts = append(ts, mc.Task{Name: "manyrows#all", Run: func(c *mc.Ctx) {
+		for _, alpha := range []int{align.NUCLEOTIDS, align.AMINOACIDS} {
+			for _, n := range []int{255, 256, 257, 258, 513} {
+				col := func(major byte, k int, minor byte) []byte {
+					b := make([]byte, n)
+					for i := range b {
+						b[i] = major
+						if i >= k {
+							b[i] = minor
+						}
+					}
+					return b
+				}
+				for _, cols := range [][][]byte{
+					{col('A', n, 'A')}, {col('A', n-1, 'C')}, {col('A', 257, 'C')}, {col('C', 1, 'A')},
+					{col('A', 256, '-'), col('C', n-1, 'A')},
+				} {
+					seqs := make([]string, n)
+					for i := range seqs {
+						b := make([]byte, len(cols))
+						for j := range cols {
+							b[j] = cols[j][i]
+						}
+						seqs[i] = string(b)
+					}
+					c14Alignment(c, alpha, seqs)
+				}
+			}
+		}
+	}})
+	// symbols below 'A' in the byte order: ? * . - and a digit next to letters, 1..3 rows, one and two columns
+	for _, L := range []int{1, 2} {
+		L := L
+		ts = append(ts, mc.Task{Name: fmt.Sprintf("lowsymbols#L%d", L), Run: func(c *mc.Ctx) {
+			for n := 1; n <= 3; n++ {
+				if n*L > 4 {
+					continue
+				}
+				forEachStringLen("AG?*.-", n*L, nil, func(s []byte) bool {
+					for _, alpha := range []int{align.NUCLEOTIDS, align.AMINOACIDS} {
+						c14Alignment(c, alpha, c14SplitRows(s, n, L))
+					}
+					return !c.Expired()
+				})
+			}
+		}})
+	}
 	return ts
 }
 
